@@ -441,6 +441,22 @@ func (f *Flow) evalStruct(t *Term, env Env, fl *evalFlags) ISet {
 				}
 			}
 		}
+		// a field of an unexported package struct: the values ever stored into that
+		// field anywhere in the package (roinit.go fieldValueSet)
+		switch ld := t.V.(type) {
+		case *ssa.UnOp:
+			if fa, ok := ld.X.(*ssa.FieldAddr); ok && ld.Op == token.MUL {
+				if pt, ok := fa.X.Type().Underlying().(*types.Pointer); ok {
+					if s := f.w.fieldValueSet(pt.Elem(), fa.Field); s != nil {
+						return s
+					}
+				}
+			}
+		case *ssa.Field:
+			if s := f.w.fieldValueSet(ld.X.Type(), ld.Field); s != nil {
+				return s
+			}
+		}
 		return f.top(t.T)
 	case TPure:
 		top := f.top(t.T)
